@@ -1,2 +1,117 @@
-//! Harnesses for property C40 (see /verif/properties.jsonl).
+//! C40 GPSd samples are validated before use.
+//!
+//! Oracle (property text + the gpsd `sock_sample` layout the code comments cite: 40 bytes,
+//! offset f64 at 16..24, pulse i32 at 24..28, leap i32 at 28..32, magic i32 at 36..40, all
+//! little endian, magic = 0x534f434b "SOCK"): a datagram becomes a sample only if the received
+//! size is exactly 40, the magic matches, pulse is 0 and the offset is finite.
 use crate::stubs;
+use ntp_proto::verif::time_types as th;
+use ntp_proto::{NtpDuration, NtpTimestamp};
+use ntpd::verif::daemon::sock_source as h;
+
+fn le_i32(b: &[u8; 40], at: usize) -> i32 {
+    (b[at] as u32 | (b[at + 1] as u32) << 8 | (b[at + 2] as u32) << 16 | (b[at + 3] as u32) << 24) as i32
+}
+fn le_u64(b: &[u8; 40], at: usize) -> u64 {
+    let lo = b[at] as u64 | (b[at + 1] as u64) << 8 | (b[at + 2] as u64) << 16 | (b[at + 3] as u64) << 24;
+    let hi = b[at + 4] as u64 | (b[at + 5] as u64) << 8 | (b[at + 6] as u64) << 16 | (b[at + 7] as u64) << 24;
+    lo | hi << 32
+}
+/// IEEE-754 binary64: exponent field all ones = infinity or NaN.
+fn bits_nonfinite(bits: u64) -> bool {
+    (bits >> 52) & 0x7ff == 0x7ff
+}
+
+fn check_sample(size: usize, buf: [u8; 40]) {
+    let magic_ok = buf[36] == 0x4b && buf[37] == 0x43 && buf[38] == 0x4f && buf[39] == 0x53; // "KCOS" = LE 0x534f434b
+    let pulse_zero = buf[24] == 0 && buf[25] == 0 && buf[26] == 0 && buf[27] == 0;
+    let off_bits = le_u64(&buf, 16);
+    match h::deserialize_sample_raw(Ok(size), buf) {
+        Ok((offset, pulse, leap, magic)) => {
+            assert!(size == 40, "accepted a datagram of the wrong size");
+            assert!(magic_ok && magic == 0x534f434b, "accepted a datagram with the wrong magic");
+            assert!(pulse_zero && pulse == 0, "accepted a datagram with the pulse flag set");
+            assert!(offset.to_bits() == off_bits, "offset is the f64 at bytes 16..24");
+            assert!(leap == le_i32(&buf, 28), "leap is the i32 at bytes 28..32");
+            assert!(!bits_nonfinite(off_bits) && offset.is_finite(), "accepted a non-finite offset");
+            kani::cover!(offset < 0.0, "accepted a negative offset");
+            kani::cover!(leap == 1, "accepted with leap = 1");
+        }
+        Err(code) => {
+            // completeness + error classification (size is checked first, then magic, then pulse)
+            assert!(size != 40 || !magic_ok || !pulse_zero || bits_nonfinite(off_bits), "rejected a valid sample");
+            if size != 40 {
+                assert!(code == 2);
+            } else if !magic_ok {
+                assert!(code == 3);
+            } else if !pulse_zero {
+                assert!(code == 4);
+            }
+            kani::cover!(code == 2 && size == 39, "rejected size 39");
+            kani::cover!(code == 2 && size == 41, "rejected size 41");
+            kani::cover!(code == 3, "rejected wrong magic");
+            kani::cover!(code == 4, "rejected pulse");
+        }
+    }
+}
+
+/// Every size and every 40-byte datagram whose offset field is a finite f64.
+#[kani::proof]
+#[kani::unwind(10)]
+fn c40_sample() {
+    let size: usize = kani::any();
+    let buf: [u8; 40] = kani::any();
+    kani::assume(!bits_nonfinite(le_u64(&buf, 16)));
+    check_sample(size, buf);
+}
+
+/// Expected to FAIL on the unchanged tree: NaN / +-inf offsets are accepted.
+#[kani::proof]
+#[kani::unwind(10)]
+fn c40_sample_kf_nonfinite_offset() {
+    let size: usize = kani::any();
+    let buf: [u8; 40] = kani::any();
+    kani::assume(bits_nonfinite(le_u64(&buf, 16)));
+    check_sample(size, buf);
+}
+
+/// A failed receive is reported as an error, never as a sample.
+#[kani::proof]
+#[kani::unwind(10)]
+fn c40_recv_error() {
+    let buf: [u8; 40] = kani::any();
+    let r = h::deserialize_sample_raw(Err(std::io::Error::from(std::io::ErrorKind::ConnectionReset)), buf);
+    assert!(r == Err(0), "receive error must be rejected as IO error");
+}
+
+/// The conversion that follows acceptance in `SockSourceTask::run`:
+/// `sender_ts = time - NtpDuration::from_seconds(sample.offset)` for every finite offset and
+/// every clock reading: no panic, and the measured offset `receiver_ts - sender_ts` is exactly the
+/// converted duration with the sign of the sample offset.
+#[kani::proof]
+#[kani::unwind(4)]
+fn c40_conv() {
+    let bits: u64 = kani::any();
+    let now: u64 = kani::any();
+    kani::assume(!bits_nonfinite(bits));
+    let offset = f64::from_bits(bits);
+    let time = th::ts_from_raw(now);
+    let d = NtpDuration::from_seconds(offset);
+    let sender_ts = time - d;
+    let measured = time - sender_ts;
+    let raw = th::dur_raw(d);
+    assert!(th::dur_raw(measured) == raw, "receiver_ts - sender_ts reproduces the converted offset");
+    assert!(th::ts_raw(sender_ts) == now.wrapping_sub(raw as u64), "sender timestamp = now - offset (mod 2^64)");
+    if offset >= 1.0 {
+        assert!(raw >= 1 << 32, "positive offsets of at least a second stay positive");
+    }
+    if offset <= -1.0 {
+        assert!(raw <= -(1 << 32), "negative offsets of at least a second stay negative");
+    }
+    if offset == 0.0 {
+        assert!(raw == 0);
+    }
+    kani::cover!(raw == i64::MAX, "huge offset saturates");
+    kani::cover!(raw == i64::MIN, "huge negative offset saturates");
+    kani::cover!(raw > 0 && raw < (1 << 32), "sub-second positive offset");
+}
